@@ -210,7 +210,7 @@ def stepCase (o : Obs) (a : Acc) (ev : String) : Option Acc :=
 def b2s (b : Bool) : String := if b then "ok" else "FAIL"
 def sl (l : List String) : String := if l.isEmpty then "-" else " / ".intercalate l
 
-def allFail : String := "C01=FAIL C02=FAIL C10=FAIL C14=FAIL"
+def allFail : String := "C01=FAIL C02=FAIL C10=FAIL C14=FAIL C09=FAIL"
 
 def handle (line : String) : String :=
   match line.splitOn " | " with
@@ -241,7 +241,8 @@ def handle (line : String) : String :=
         -- a kill that was asked for (a signal sent from inside a command) counts even when the process survived it
         let v10 := if hasCrash oh || a.asked then b2s (c10 oh) else "na"
         let v14 := if hasForced oh then b2s (c14 oh) else "na"
-        s!"{model} || C01={v01} C02={v02} C10={v10} C14={v14}"
+        let v09 := if hasFailure oh then b2s (c09 oh) else "na"
+        s!"{model} || C01={v01} C02={v02} C10={v10} C14={v14} C09={v09}"
       | none => "BAD-CASE || " ++ allFail
     | _, _ => "BAD-OBS || " ++ allFail
   | _ => "BAD-LINE || " ++ allFail
